@@ -181,9 +181,20 @@ def pipe_matrix(run, scratch):
         "rat": ([], F.rat_file(pal, bytes((i // 31) & 255 for i in range(199 * 160)), Chooser(()))),
         "cm3": ([], F.cm3_raw_file(pal, C.body_lin(192 * 160, 1, 0))),
     }
+    samples = [(t, o, d) for t, (o, d) in sorted(samples.items())]
+    # every option of the tools that read standard input, combined with the pipes (skip needs a non-seekable stream)
+    samples += [
+        ("hrs", ["-w", "8", "-r", "4", "-s", "5"], b"JUNK!" + F.hrs_file(pal, C.body_lin(16, 3, 1))),
+        ("hrs", ["-w", "8", "-r", "4", "-s", "0"], F.hrs_file(pal, C.body_lin(16, 3, 1))),
+        ("max", ["-w", "16", "-s", "3"], b"abc" + F.max_file(C.body_lin(8, 5, 1))),
+        ("max", ["-w", "16", "-r", "3", "-br"], F.max_file(C.body_lin(8, 5, 1))),
+        ("max", ["-newsroom"], F.newsroom_file(2, 5, C.body_lin(10, 5, 3))),
+        ("max", ["-newsroom", "-s", "2"], b"zz" + F.newsroom_file(2, 5, C.body_lin(10, 5, 3))),
+        ("max", ["-w", "16", "-i"], F.max_file(C.body_lin(8, 5, 1))),
+    ]
     env = dict(os.environ)
     env["PYTHONPATH"] = core.REPO
-    for tool, (opts, data) in sorted(samples.items()):
+    for tool, opts, data in samples:
         base = T.run_tool(tool, data, opts, scratch)
         for use_in in ([False, True] if tool in T.STDIN_OK else [False]):
             for use_out in ([False, True] if tool in T.STDOUT_OK else [False]):
